@@ -40,10 +40,10 @@ def _summary(out):
 def _jobs(ctx):
     s = ctx.seed * 1000003
     jobs = []
-    nrel, hrel = ctx.pick((8, 2500), (16, 31250))
+    nrel, hrel = ctx.pick((8, 2500), (16, 20000))
     for i in range(nrel):
         jobs.append(("rel", ["seq", s + i, hrel, 25, 0]))
-    nas, has = ctx.pick((4, 400), (8, 4000))
+    nas, has = ctx.pick((4, 400), (8, 3000))
     for i in range(nas):
         jobs.append(("asan", ["seq", s + 100 + i, has, 25, 0]))
     # defect-specific workloads (see known findings): small batches, the harness stops at the first discrepancy
